@@ -340,10 +340,14 @@ def r3(run, ctx):
             if isinstance(recv, ast.Subscript) and norm_text(recv.slice) == 'pid':
                 ok = True
             elif isinstance(recv, ast.Name):
+                def lookup_of_pid(v):      # M[pid] or M.get(pid)
+                    return (isinstance(v, ast.Subscript) and norm_text(v.slice) == 'pid') or \
+                        (isinstance(v, ast.Call) and isinstance(v.func, ast.Attribute) and
+                         v.func.attr == 'get' and len(v.args) == 1 and
+                         norm_text(v.args[0]) == 'pid')
                 defs = [x for x in cfg.nodes if x.kind == 'stmt' and isinstance(x.ast, ast.Assign)
                         and any(isinstance(t, ast.Name) and t.id == recv.id for t in x.ast.targets)
-                        and isinstance(x.ast.value, ast.Subscript) and
-                        norm_text(x.ast.value.slice) == 'pid']
+                        and lookup_of_pid(x.ast.value)]
                 wn = [w_[0] for w_ in waits]
                 ok = bool(defs) and cfg.dominates(defs, rn) and \
                     all(any(cfg.reachable(w0, dn) for w0 in wn) for dn in defs)
